@@ -11,7 +11,7 @@ import (
 
 func init() {
 	register("C08",
-		"no function reachable from the exported API (or from a registered builtin) other than `init` writes package-level state (a package-level sync.Map that is provably a memo of a pure function of its key - memo.go - is not hidden state), directly or by handing a package-level object to a callee that writes through that parameter (interprocedural parameter-write summaries); evaluation and field analysis never write through the tree they are given (node, token node, node list, source) - not even lazily; every parse allocates its own parser, scanner and source; the only ambient inputs (clock, random numbers, environment, runtime identity) are read by the builtins registered as `now` and `toDay`; loops over Go maps do not let the iteration order reach a result. No package-level map or slice is installed in a field that is written through elsewhere (shared state between objects); decimal results and reflective writes go into objects created in the same function.",
+		"no function reachable from the exported API (or from a registered builtin) other than `init` writes package-level state (a package-level sync.Map that is provably a memo of a pure function of its key - memo.go - is not hidden state), directly or by handing a package-level object to a callee that writes through that parameter (interprocedural parameter-write summaries); evaluation and field analysis never write through the tree they are given (node, token node, node list, source) - not even lazily; every parse allocates its own parser, scanner and source; the only ambient inputs (clock, random numbers, environment, runtime identity) are read by the builtins registered as `now` and `toDay`; loops over Go maps do not let the iteration order reach a result. No package-level map or slice is installed in a field that is written through elsewhere (shared state between objects); decimal results and reflective writes go into objects created in the same function. A comparison function that orders map keys by (reflect.Value).String() orders nothing for keys that are not strings.",
 		"equality of repeated results as values (only its causes - no hidden state, no ambient input, no order dependence - are decided) and determinism inside the standard library / decimal library.",
 		runC08)
 }
@@ -405,6 +405,14 @@ func c08MapOrder(c *Ctx) {
 						}
 						if fn, isFn := mc.Fn.(*ssa.Function); isFn {
 							instrs(fn, func(_ *ssa.BasicBlock, _ int, x ssa.Instruction) {
+								// (reflect.Value).String is "<int Value>" for every key that is not a string: a
+								// comparison of such texts orders nothing, the keys stay in iteration order
+								if cl, isCl := x.(*ssa.Call); isCl {
+									if cc := calleeOf(cl); cc != nil && cc.String() == "(reflect.Value).String" {
+										sorted = false
+										staleWhy = "the comparison function of " + cal.String() + " compares (reflect.Value).String() of the keys, which is the constant text \"<T Value>\" for every key that is not a string: such keys are not ordered at all and stay in the map's iteration order (fmt.Sprint(k.Interface()) prints the key)"
+									}
+								}
 								var base, idx ssa.Value
 								switch y := x.(type) {
 								case *ssa.IndexAddr:
